@@ -28,6 +28,12 @@ def install_sql_hooks(kill, counts):
         counts['stmt'] += 1
         if s.startswith('CREATE'):
             counts['ddl'] = counts.get('ddl', 0) + 1
+        if s.startswith('INSERT') and 'first_insert_stmt' not in counts:
+            counts['first_insert_stmt'] = counts['stmt']
+        if s.startswith('UPDATE') and 'first_insert_stmt' in counts and 'first_update_stmt' not in counts:
+            # the first check-out: everything before it is set-up (schema, storing the start URLs)
+            counts['first_update_stmt'] = counts['stmt']
+            counts['commits_before_first_update'] = counts['commit']
         if kill and kill['kind'] == 'before_stmt' and counts['stmt'] == kill['at']:
             die()
 
